@@ -486,9 +486,70 @@ def r6(ctx, R):
         R.ok("C02.R6", f.short, "no single-line shortcut", loc(f, f.node), "the raw text is never written into a line directly")
 
 
+def r7(ctx, R):
+    """Every line of the inserted text ends up in the buffer.  A splice that takes a
+    proper slice of the inserted lines (`new[:-1]`, `new[1:]`) must use the element
+    it leaves out in the same branch (it is glued to the kept prefix / suffix);
+    otherwise that piece of the client's text silently disappears."""
+    R.rule("C02.R7", "the inserted text is used whole: a splice that slices the inserted lines also uses the element the slice leaves out", floor=1, confirmed=1)
+    f = edit_routine(ctx)
+    names = [st.targets[0].id for st, c in splitter_calls(ctx, f) if isinstance(st, ast.Assign) and len(st.targets) == 1 and isinstance(st.targets[0], ast.Name)]
+    if not names:
+        R.undecided("C02.R7", f.short, "inserted lines", loc(f, f.node), "no local holds the split inserted text")
+        return
+    for nm in names:
+        uses = [x for x in ctx.m.walk_own(f.node) if isinstance(x, ast.Subscript) and isinstance(x.value, ast.Name) and x.value.id == nm]
+        slices = [x for x in uses if isinstance(x.slice, ast.Slice)]
+        if not slices:
+            R.ok("C02.R7", f.short, f"{nm}: never sliced", loc(f, f.node), f"{len(uses)} element reads, whole-list iteration otherwise")
+            continue
+        for sl_ in slices:
+            st = ctx.m.enclosing_stmt(sl_)
+            lo, hi = sl_.slice.lower, sl_.slice.upper
+            def const(e):
+                try:
+                    return ast.literal_eval(e) if e is not None else None
+                except Exception:
+                    return "?"
+            lo_v, hi_v = const(lo), const(hi)
+            dropped = []
+            if hi_v == -1:
+                dropped.append(-1)
+            elif hi_v is not None:
+                dropped.append("?")
+            if lo_v == 1:
+                dropped.append(0)
+            elif lo_v not in (None, 0):
+                dropped.append("?")
+            # the block the statement sits in (the branch that is executed together with it)
+            par = ctx.m.parent.get(st)
+            block = None
+            for fld_ in ("body", "orelse", "finalbody"):
+                b = getattr(par, fld_, None)
+                if isinstance(b, list) and st in b:
+                    block = b
+            block = block or [st]
+            idx_used = set()
+            for s2 in block:
+                for x in ast.walk(s2):
+                    if isinstance(x, ast.Subscript) and isinstance(x.value, ast.Name) and x.value.id == nm and not isinstance(x.slice, ast.Slice):
+                        v = const(x.slice)
+                        idx_used.add(v)
+            k = key(f, st)[:90]
+            if "?" in dropped:
+                R.undecided("C02.R7", f.short, k, loc(f, sl_), f"slice `{unparse(sl_)}` of the inserted lines with non-constant bounds")
+            elif all(d in idx_used for d in dropped):
+                R.ok("C02.R7", f.short, k, loc(f, sl_), f"`{unparse(sl_)}`: the left-out element(s) {dropped} are used in the same branch")
+            else:
+                miss = [d for d in dropped if d not in idx_used]
+                R.violation("C02.R7", f.short, k, loc(f, sl_), f"the buffer is rebuilt from `{unparse(sl_)}` and element {miss} of the inserted lines is used nowhere in that branch: when the inserted text does not end in a line break (or does not start with one) that piece of the client's text is lost and the two buffers diverge")
+
+
+
 def run(ctx, R):
     r1_r2(ctx, R)
     r3(ctx, R)
     r4(ctx, R)
     r5(ctx, R)
     r6(ctx, R)
+    r7(ctx, R)
